@@ -278,6 +278,31 @@ def clause3_batch(ctx, P, cg):
                 ctx.ob("C14.3 R-GATE", he, Q.ordinal_site(he, i, P) + ":read-through-entry-after-read-dispatch", Q.must_pass(P, he, i.block, cur2),
                        "ev->%s is read after the read callback ran without the current_ev != NULL test first: the callback may have "
                        "released the entry (use after free)" % t[3])
+    # remove() invalidates unconditionally: every path through it walks the pending window
+    rmf = P.fn("eventloop_epoll.c:eventloop_epoll_remove")
+    lp = rmf.loops()
+    okr = len(lp) >= 1
+    if okr:
+        dom = rmf.dominators()
+        exits = [b for b in range(rmf.nblocks) if rmf.term_inst(b).op == "ret"]
+        okr = any(all(h in dom[b] for b in exits) for h in lp)
+    ctx.ob("C14.3 R-LOOP", rmf, "invalidation-is-unconditional", okr,
+           "eventloop_epoll_remove() can return without walking the harvested events (an early exit, e.g. when current_ev was already "
+           "cleared by an earlier remove in the same callback): an entry released later in that callback is still dispatched")
+    # the batch is abandoned only to stop the loop: handle_events returns its own two constants, never a callback's verdict
+    ABORT, CONT = Q.enum(P, "EL_ABORT_LOOP"), Q.enum(P, "EL_CONTINUE_LOOP")
+    other = []
+    for i in he.all_insts():
+        if i.op == "ret" and i.a:
+            lv, _ = Q.leaves(P, he, i.a[0], through_loads=False)
+            for l in lv:
+                if l not in (("const", ABORT), ("const", CONT)):
+                    other.append(l)
+    ctx.ob("C14.3 R-RET", he, "batch-left-only-to-stop-the-loop", not other,
+           "handle_events() can return %s: leaving the batch for anything but EL_ABORT_LOOP drops the remaining harvested events, and "
+           "with edge-triggered registration they are never reported again" % ", ".join(fmt_term(o) for o in other[:2]))
+    for v in Q.path_views(ctx, P, he):
+        pass
     ctx.floor("C14.3 R-EFFECT", 1)
 
 
